@@ -848,7 +848,9 @@ def create_logger(id_, parameters, arg):
         "id": id_,
         "type": "Logger",
         "file_name": file_name,
-        "parameters": models + parameters2 + ['coalescent.theta.log'],
+        "parameters": models
+        + parameters2
+        + (['coalescent.theta.log'] if arg.coalescent in COALESCENT_PIECEWISE else []),
         "delimiter": "\t",
     }
 
